@@ -216,7 +216,9 @@ func FrameCheck(root string, s *Step, r *StepResult) []*Violation {
 	outRel, _ := filepath.Rel(root, w(root, iv.OutPath))
 	outRel = filepath.ToSlash(outRel)
 	diffs := r.Pre.Diff(r.Post)
-	crashed := strings.HasPrefix(r.Obs.Status, "signal:")
+	// only the simulator's own power cut (SIGKILL inside a write) excuses a changed
+	// output; a run ended by a signal it could have caught is a failed run
+	crashed := r.Obs.Status == "signal:killed"
 	okExit := r.Obs.Status == "exit:0"
 	var vs []*Violation
 	logsSeen := 0
